@@ -399,7 +399,7 @@ class C20(Prop):
         out = []
         for i in range(n):
             if style == "prob": x = rng.choice([0.0, rng.random(), rng.random() ** 4])
-            elif style == "logp": x = rng.choice([-math.inf, -rng.uniform(0, 30), -rng.uniform(0, 900 if not f32 else 80), -rng.uniform(0, 1), 0.0]) + (rng.choice([0, -1000, 300]) if not f32 else rng.choice([0, -30, 20]))
+            elif style == "logp": x = rng.choice([-math.inf, -rng.uniform(0, 30), -rng.uniform(0, 900 if not f32 else 80), -rng.uniform(0, 1), 0.0]) + (rng.choice([0, -1000, 300]) if not f32 else rng.choice([0, -30, 20, -200, 110]))
             elif style == "ties": x = float(rng.randrange(-3, 4))
             elif style == "zeros": x = rng.choice([0.0, -0.0, 1.0, -1.0, 0.0])
             elif style == "wide": x = math.ldexp(rng.uniform(-1, 1), rng.randrange(-60, 60) if not f32 else rng.randrange(-30, 30))
@@ -488,6 +488,11 @@ class C20(Prop):
             ops.append("vec op=%sSum x=-" % T); ops.append("vec op=%sArgMax x=-" % T); ops.append("vec op=%sArgMin x=-" % T)
             ops.append("vec op=%sDot x=- y=-" % T); ops.append("vec op=%sNorm x=-" % T); ops.append("vec op=%sEntropy x=-" % T)
             ops.append("vec op=%sValidate x=- s=%s" % (T, sb(T, 0.1))); ops.append("vec op=%sSortIncreasing x=-" % T)
+            for o in ("LogValidate", "Log2Validate", "Validate"):
+                ops.append("vec op=%s%s x=- s=%s" % (T, o, sb(T, 0.1)))
+                ops.append("vec op=%s%s x=%s s=%s" % (T, o, hx(T, [0.0] if o != "Validate" else [1.0]), sb(T, 1e-3)))      # n = 1, valid
+                ops.append("vec op=%s%s x=%s s=%s" % (T, o, hx(T, [1.0] if o != "Validate" else [0.5]), sb(T, 1e-3)))      # n = 1, invalid
+                ops.append("vec op=%s%s x=%s s=%s" % (T, o, hx(T, [-1.0] if o != "Validate" else [-0.5]), sb(T, 1e-3)))
         for T, k, lim in (("I", 4, 1000), ("L", 8, 2 ** 24)):
             for n in lens[:12] + [1000] + [rng.randrange(2, 500) for _ in range(4)]:
                 for style in ("uni", "ties"):
@@ -757,6 +762,8 @@ class C20(Prop):
                 acc += Fraction(v); sa += abs(Fraction(v))
                 if not close(g, acc, Fraction(eps) * 2 * (i + 2) * sa + Fraction(tiny)): return "%sCDF: element %d is %r, prefix sum is %.17g" % (T, i, g, float(acc))
             return None
+        if name in ("Validate", "LogValidate", "Log2Validate") and len(w) > 2:
+            if (w[1] == "ok") != (w[2] == "nomsg"): return "%s%s: status %s but error buffer is %s" % (T, name, w[1], "empty" if w[2] == "nomsg" else "non-empty")
         if name == "Validate":
             tol = f64_of_bits(int(kvs["s"], 16)) if T == "D" else f32_of_bits(int(kvs["s"], 16))
             st = w[1]
